@@ -16,6 +16,14 @@ type State struct {
 	guard *Term
 	heap  map[string]*Term
 	alloc *Term
+	// epochs: which incarnation an entry not yet in `heap` has. One alternative {true,"H0"} initially;
+	// a call with "modifies anything" starts a new epoch; a merge of different epochs keeps the guarded alternatives.
+	epochs []epochAlt
+}
+
+type epochAlt struct {
+	guard  *Term
+	prefix string
 }
 
 func (s *State) clone() *State {
@@ -23,7 +31,19 @@ func (s *State) clone() *State {
 	for k, v := range s.heap {
 		h[k] = v
 	}
-	return &State{guard: s.guard, heap: h, alloc: s.alloc}
+	return &State{guard: s.guard, heap: h, alloc: s.alloc, epochs: s.epochs}
+}
+
+func (s *State) sameEpoch(o *State) bool {
+	if len(s.epochs) != len(o.epochs) {
+		return false
+	}
+	for i := range s.epochs {
+		if s.epochs[i].prefix != o.epochs[i].prefix || s.epochs[i].guard.S != o.epochs[i].guard.S {
+			return false
+		}
+	}
+	return true
 }
 
 // Exec translates one verification unit (a function under contract).
@@ -162,9 +182,42 @@ func (x *Exec) heapArr(st *State, l loc) *Term {
 		return t
 	}
 	x.heapSort[l.key] = l.sort
-	name := quoteName("H0" + l.key)
-	x.sc.global(name, l.sort)
-	return &Term{name, l.sort}
+	return x.epochValue(st, l.key, l.sort)
+}
+
+// epochValue: the incarnation of an entry that has not been touched in this state yet.
+func (x *Exec) epochValue(st *State, key string, sort Sort) *Term {
+	if len(st.epochs) <= 1 {
+		prefix := "H0"
+		if len(st.epochs) == 1 {
+			prefix = st.epochs[0].prefix
+		}
+		return x.sc.global(quoteName(prefix+key), sort)
+	}
+	m := x.sc.fresh(sort, "Hep")
+	for _, a := range st.epochs {
+		x.sc.assume(implies(a.guard, eq(m, x.sc.global(quoteName(a.prefix+key), sort))))
+	}
+	st.heap[key] = m
+	return m
+}
+
+// havocAll: a callee with "modifies anything": every heap entry, touched or not, gets a new incarnation.
+func (x *Exec) havocAll() {
+	x.sc.n++
+	prefix := fmt.Sprintf("HA%d", x.sc.n)
+	for k := range x.st.heap {
+		if strings.HasPrefix(k, "local:") {
+			continue // private locals are unreachable for any callee
+		}
+		x.noteWrite(k, nil)
+		x.st.heap[k] = x.sc.global(quoteName(prefix+k), x.heapSort[k])
+	}
+	x.st.epochs = []epochAlt{{tTrue, prefix}}
+	for _, si := range x.scratches {
+		si.all = true
+	}
+	x.assumeGlobalInvs()
 }
 
 func (x *Exec) readLoc(st *State, l loc) *Term {
@@ -462,13 +515,12 @@ func (x *Exec) mergeStates(es []*State) *State {
 	}
 	sort.Strings(ks)
 	for _, k := range ks {
-		init := x.sc.global(quoteName("H0"+k), x.heapSort[k])
 		vals := make([]*Term, len(es))
 		same := true
 		for i := range es {
 			v, ok := es[i].heap[k]
 			if !ok {
-				v = init
+				v = x.epochValue(es[i], k, x.heapSort[k])
 			}
 			vals[i] = v
 			if v.S != vals[0].S {
@@ -496,6 +548,24 @@ func (x *Exec) mergeStates(es []*State) *State {
 		}
 	}
 	out.alloc = x.sc.def(cur, "alloc")
+	allSame := true
+	for _, s := range es[1:] {
+		if !s.sameEpoch(es[0]) {
+			allSame = false
+		}
+	}
+	if allSame {
+		out.epochs = es[0].epochs
+	} else {
+		for _, s := range es {
+			if len(s.epochs) == 0 {
+				out.epochs = append(out.epochs, epochAlt{s.guard, "H0"})
+			}
+			for _, a := range s.epochs {
+				out.epochs = append(out.epochs, epochAlt{and(s.guard, a.guard), a.prefix})
+			}
+		}
+	}
 	return out
 }
 
